@@ -257,8 +257,17 @@ def overlaps (users : List User) (timeout now : Int) (u : User) : Bool :=
     users.any fun v =>
       v.id != u.id && (maskHitsUser v timeout now hm || v.hostmasks.any (fun o => glob hm o))
 
-/-- `UsersDictionary.setUser(u)` -/
-def setUser (st : St) (u : User) : St × R Unit :=
+/-- the record `setUser(u)` works with after its name lookup: the stored one when `u` is the
+stored object itself (`live`), else `u` as passed -/
+def finalRecord (r : St) (u : User) (live : Bool) : User :=
+  if live then (match r.db.getUserById u.id with | some w => w | none => u) else u
+
+/-- `UsersDictionary.setUser(u)`.  `live` says that `u` is the very object stored in `users`
+(the plugins fetch a user, change it in place and then call `setUser`): whatever the name lookup
+inside `setUser` does to the stored record — it may delete duplicate hostmasks — has then
+happened to `u` as well, so the overlap test and the final assignment see the stored record.
+The users.conf loader passes a fresh object (`live = false`). -/
+def setUser (st : St) (u : User) (live : Bool := true) : St × R Unit :=
   if hasLineBreak u.name then (st, .error .value)
   else
     -- both caches are emptied first: the caller may have changed the stored record already
@@ -272,8 +281,9 @@ def setUser (st : St) (u : User) : St × R Unit :=
     match clash with
     | some e => (r.1, .error e)
     | none =>
-      if overlaps r.1.db.users r.1.db.timeout r.1.now u then (r.1, .error .value)
-      else ({ r.1 with hc := {}, nc := {}, db := r.1.db.putUser u }, .ok ())
+      let u' : User := finalRecord r.1 u live
+      if overlaps r.1.db.users r.1.db.timeout r.1.now u' then (r.1, .error .value)
+      else ({ r.1 with hc := {}, nc := {}, db := r.1.db.putUser u' }, .ok ())
 
 /-- `UsersDictionary.delUser(id)` -/
 def delUser (st : St) (id : Nat) : St × R Unit :=
@@ -411,11 +421,11 @@ def step (st : St) : Op → St × Out
       (s.1, outOfUnit s.2)
   | .load id name sec masks =>
     let u : User := { id := id, name := name, secure := sec, hostmasks := masks.foldl masksAdd [] }
-    let s := setUser st u
+    let s := setUser st u false
     match s.2 with
     | .ok _ => (s.1, .done)
     | .error _ =>
-      let s2 := setUser s.1 { u with hostmasks := [] }
+      let s2 := setUser s.1 { u with hostmasks := [] } false
       (s2.1, outOfUnit s2.2)
   | .delUser id => let s := delUser st id; (s.1, outOfUnit s.2)
   | .tick dt => ({ st with now := st.now + dt }, .done)
